@@ -178,7 +178,8 @@ def decorate_contract(ck, ld):
                         want.append((real_datetime.timedelta(seconds=int(m1.group(2)), milliseconds=int(m1.group(3))), "/c/s/" + nm))
                     elif m2 and kind in ("dmd", "any"):
                         want.append((real_datetime.timedelta(seconds=int(m2.group(2))), "/c/s/" + nm))
-                if got != want:
+                # which names are decorated, with which time and path; the order is the caller's business (it sorts)
+                if sorted(got) != sorted(want):
                     bad.append((combo, kind, got, want))
     ck.enumerations.append(("decorate.matches", n, len(bad), bad[:2]))
     ck.struct("decorate.matches", not bad, "_decorate_drf_files deviates from its contract on %s" % (bad[:2],), {"no_input": False})
